@@ -474,6 +474,9 @@ class Eval:
             if isinstance(g.target, ast.Name) and isinstance(e.elt, ast.IfExp):
                 i = g.target.id
                 t = e.elt.test
+                if isinstance(t, ast.Compare) and len(t.ops) == 1 and isinstance(t.ops[0], ast.Eq) and isinstance(t.comparators[0], ast.Name) and t.comparators[0].id == i \
+                        and not (isinstance(t.left, ast.Name) and t.left.id == i):
+                    t = ast.Compare(left=t.comparators[0], ops=[ast.Eq()], comparators=[t.left])      # AXIS == i  is  i == AXIS
                 if isinstance(t, ast.Compare) and len(t.ops) == 1 and isinstance(t.left, ast.Name) and t.left.id == i:
                     other = t.comparators[0]
                     if isinstance(t.ops[0], ast.Eq) and _is_slice_none(e.elt.orelse):
